@@ -37,7 +37,7 @@ COMPONENTS = {
     "stub": ["CAN backend (SimBus)", "can.Notifier", "threading.Condition in canopen.pdo.base (simulator primitive)", "python-can cyclic task (SimCyclicTask)"],
 }
 PROBES = ["tpdo-direction", "rpdo-direction", "config-by-save-read", "colliding-cob-ids", "sub-byte-field", "unaligned-multibyte", "callback", "rtr-sent",
-          "rtr-suppressed", "reconfigured", "frame-on-old-cob-id", "wait-returned", "wait-none", "periodic", "mode-T", "two-waiters"]
+          "rtr-suppressed", "reconfigured", "frame-on-old-cob-id", "wait-returned", "wait-none", "periodic", "mode-T", "two-waiters", "configuration-reapplied-on-one-side"]
 
 TYPES8 = (odm.UNSIGNED8, odm.INTEGER8, odm.BOOLEAN)
 FULL = [odm.UNSIGNED8, odm.INTEGER8, odm.BOOLEAN, odm.UNSIGNED16, odm.INTEGER16, odm.UNSIGNED24, odm.INTEGER24, odm.UNSIGNED32, odm.INTEGER32,
@@ -217,6 +217,11 @@ def configure(ctx, w, pair, cob_id, layout, enabled=True, rtr=True, via_save=Fal
     rmap = pair.cons if pair.direction == "tpdo" else pair.prod
     lmap = pair.prod if pair.direction == "tpdo" else pair.cons
     apply(rmap)
+    if ctx.choice(3, "reapply") == 0:
+        # the same configuration applied once more on one side only (clear() and the same add_variable calls):
+        # harmless, unless a map keeps something from its previous layout
+        apply(rmap)
+        ctx.probe("configuration-reapplied-on-one-side")
     if via_save:
         _, exc = call(rmap.save)
         if exc is not None:
